@@ -109,6 +109,14 @@ Theorem C20_seal_covers_rhs :
   seal_covers_params traits "tensors::operations" "Similar" "private" "Sealed" = true.
 Proof. exact seal_covers_rhs. Qed.
 
+(* the sealing trait is implemented (in its private module) for a closed set of (Self, Rhs) pairs of
+   crate types only -- every impl's Self and Rhs is an application of a struct / enum of this crate,
+   never a bare type parameter that a downstream type could inhabit through a public bound such as
+   `TensorView<..>: PartialEq<Rhs>` *)
+Theorem C20_seal_impls_closed :
+  seal_impls_closed sealed_impls "tensors::operations" "private" "Sealed" = true.
+Proof. exact seal_impls_closed_ok. Qed.
+
 (* the five marker traits are `unsafe trait`s: implementing them needs `unsafe impl` *)
 Theorem C20_unsafe_markers : forallb (is_unsafe_trait traits) unsafe_markers = true.
 Proof. exact markers_unsafe. Qed.
@@ -154,5 +162,6 @@ Print Assumptions C20_translation_closed.
 Print Assumptions C20_no_marker_impls.
 Print Assumptions C20_sealed.
 Print Assumptions C20_seal_covers_rhs.
+Print Assumptions C20_seal_impls_closed.
 Print Assumptions C20_unsafe_markers.
 Print Assumptions C20_fuel_stable.
